@@ -14,6 +14,8 @@ UNKNOWN = 'ZZ9'          # an ID that is never in any pool
 STORY_POOL = ['A', 'AB', 'C', 'D', 'E', 'F', 'G']
 ITEM_POOL = ['a', 'ab', 'c', 'd', 'e', 'f', 'g']
 RO_ID = 'RO1'
+# IDs that look like numbers, carry spaces, markup-significant and non-ASCII characters, differ only in case
+EXOTIC_IDS = ['10', '9', 'a b', 'x&y<z>', 'Ä\U0001F600', 'A', 'a']
 
 SPECIAL = 'x&y<z>"q\' é\U0001F600é'     # markup-significant, non-BMP, combining
 
